@@ -80,6 +80,38 @@ func runC18(c *h.Ctx) {
 		cs.Distinct(fmt.Sprintf("jd-%d", cs.I))
 	})
 
+	// ---- (a3) non-struct root descriptors: the value document and the same document cut inside its value
+	c.Run("j2t-root-join", c.N(1500, 40000), func(cs *h.Case) {
+		rc, ok := rootValueCase(cs)
+		if !ok {
+			return
+		}
+		cs.Info("idl", rc.idl)
+		cs.Info("root-type", rc.t.String())
+		for i, doc := range []string{rc.full, rc.bad} {
+			if doc == "" {
+				continue
+			}
+			cs.Info("doc", trunc(doc))
+			cv := j2t.NewBinaryConv(rc.o)
+			out, err := cv.Do(context.Background(), rc.td, []byte(doc))
+			res := "rejected"
+			if err == nil {
+				res = "ok:" + fmt.Sprintf("%x", out)
+			}
+			kind := "j2t-root"
+			if i == 1 {
+				kind = "j2t-root-cut"
+				if rc.t.T == tref.STRING && (len(doc)-1)%32 == 0 {
+					kind = "j2t-root-cut-whole-vectors" // see C02-K3: the native scanners accept these
+				}
+			}
+			cs.Res(kind, res)
+		}
+		cs.Cover("j2t_root_join_cases")
+		cs.Distinct(fmt.Sprintf("jr-%s-%d", tref.TypeName(rc.t.T), len(rc.full)/4))
+	})
+
 	// ---- (a) the same j2t case list in every flavour: results are joined by the driver ------------
 	c.Run("j2t-join", c.N(4000, 120000), func(cs *h.Case) {
 		cc, ok := c02Make(cs)
